@@ -247,6 +247,9 @@ func (n *node) handle(s network.Stream) {
 	}
 	switch variant {
 	case "ok":
+		if c != nil {
+			c.holdWait()
+		}
 		_ = dlproto.WriteStream(respWith(blockFor(height, height, n.ix)), s)
 		s.Close()
 	case "refuse-reset":
